@@ -20,7 +20,9 @@ RULE = (
     "formats x all 256 flags bytes + boundary pairs + corrupted/shifted/short magics; thorough: all 65 536 pairs x 11 truncations. "
     "stream (ii) packages: 0-3 modules built with hugr.build (random typed straight-line programs with "
     "constants, nested DFGs, conditionals, tail loops, calls; non-ASCII function names, string constants "
-    "and node metadata) + 0-2 extensions (generated type/op defs or std ones) x formats {JSON, MODULE, "
+    "and node metadata) + 0-2 extensions (generated type/op defs or std ones; in half of the packages with both, a "
+    "module names operations and types of the bundled extensions as unresolved Custom / Opaque references with "
+    "their own recorded description and bound) x formats {JSON, MODULE, "
     "MODULE_WITH_EXTS} x zstd in {None, 0, 1, 3, 19} (+ default config) through to_bytes/from_bytes and "
     "to_str/from_str. Non-trivial = header case whose first 8 bytes are the magic (the format/flags bytes "
     "decide), or a package case with at least one module or extension; distinct by full spec."
@@ -328,6 +330,86 @@ _FALLBACK_RS = {
 }
 
 
+def _py_literals_by_running(mod) -> dict:
+    """The same facts as `_py_literals`, obtained from the behaviour of the (freshly executed) module when its
+    source is not written the way the AST reader expects (a refactoring).  Every fact is a total check over a
+    small domain, not a sample: both zstd settings of every format for the layout, every prefix length for the
+    minimum length, every byte of the magic for the magic test, all 256 flags bytes for the read mask."""
+    H, F = mod.EnvelopeHeader, mod.EnvelopeFormat
+    magic = bytes(mod.MAGIC_NUMBERS)
+    n = len(magic)
+    out = {}
+    base = mask = None
+    for f in F:
+        b0, b1 = H(format=f, zstd=False).to_bytes(), H(format=f, zstd=True).to_bytes()
+        for b in (b0, b1):
+            if not (isinstance(b, bytes) and len(b) == n + 2 and b[:n] == magic and b[n] == f.value):
+                raise _Unparsed(f"to_bytes({f.name}) = {b!r} is not magic ++ [format] ++ [flags]")
+        if base is None:
+            base, mask = b0[n + 1], b0[n + 1] ^ b1[n + 1]
+        if (b0[n + 1], b1[n + 1]) != (base, base | mask) or base & mask:
+            raise _Unparsed("to_bytes: the flags byte is not `base | (mask if zstd)` with one base and mask for all formats")
+    out["pyFlagsBase"], out["pyZstdSetMask"] = base, mask
+    f0 = next(iter(F))
+    good = magic + bytes([f0.value, 0]) + b"\x00" * 6
+
+    def dec(d):
+        try:
+            return H.from_bytes(d)
+        except ValueError:
+            return None
+
+    oks = [k for k in range(len(good) + 1) if dec(good[:k]) is not None]
+    if not oks or oks != list(range(oks[0], len(good) + 1)):
+        raise _Unparsed(f"from_bytes: accepted prefix lengths {oks} are not `>= N`")
+    out["pyMinLen"] = oks[0]
+    for i in range(n):
+        bad = bytearray(good)
+        bad[i] ^= 0x20
+        if dec(bytes(bad)) is not None:
+            raise _Unparsed(f"from_bytes: byte {i} of the magic is not compared")
+    out["pyMagicSlice"] = n
+    for f in F:
+        h = dec(magic + bytes([f.value, 0]))
+        if h is None or h.format is not f:
+            raise _Unparsed(f"from_bytes: format byte {f.value} at index {n} is not read as {f.name}")
+    out["pyFormatIdx"], out["pyFlagsIdx"] = n, n + 1
+    rmask = 0
+    for b in range(8):
+        h = dec(magic + bytes([f0.value, 1 << b]))
+        if h is not None and h.zstd:
+            rmask |= 1 << b
+    for x in range(256):
+        h = dec(magic + bytes([f0.value, x]))
+        if h is None or bool(h.zstd) != bool(x & rmask):
+            raise _Unparsed(f"from_bytes: zstd is not `flags & {rmask:#x}` at flags byte {x:#x}")
+    out["pyZstdReadMask"] = rmask
+    js = next((f for f in F if f.ascii_printable()), None)
+    try:
+        ok = js is not None and mod.read_envelope(H(format=js, zstd=False).to_bytes() + b'{"modules":[],"extensions":[]}') is not None
+    except Exception:  # noqa: BLE001
+        ok = False
+    if not ok:
+        raise _Unparsed("read_envelope: the payload does not start right after the header")
+    out["pyPayloadStart"] = n + 2
+    return out
+
+
+def _fresh_envelope_module(repo: Path):
+    import importlib.util
+    import sys
+
+    path = repo / "hugr-py" / "src" / "hugr" / "envelope.py"
+    spec = importlib.util.spec_from_file_location("_c09_envelope_fresh", path)
+    mod = importlib.util.module_from_spec(spec)
+    sys.modules[spec.name] = mod  # dataclasses needs the module to be registered
+    try:
+        spec.loader.exec_module(mod)
+    finally:
+        sys.modules.pop(spec.name, None)
+    return mod
+
+
 def _py_module_values(repo: Path) -> dict:
     """Module-level values, by executing a fresh copy of envelope.py (not the cached import)."""
     import importlib.util
@@ -368,7 +450,14 @@ def translate(repo, gen_dir):
     try:
         src = (repo / "hugr-py" / "src" / "hugr" / "envelope.py").read_text()
         py = _py_module_values(repo)
-        py.update(_py_literals(src))
+        try:
+            py.update(_py_literals(src))
+        except _Unparsed as e:
+            # not written the way the AST reader expects: read the same facts off the behaviour; what the reader
+            # also pinned down syntactically (statement order, the compression branches) is then left to the
+            # correspondence streams (every format/flags pair and truncation; packages x configurations)
+            py.update(_py_literals_by_running(_fresh_envelope_module(repo)))
+            problems.append(f"note: envelope.py: {e}; header constants obtained by running the module instead")
         for k in ("pyFlagsBase", "pyZstdSetMask", "pyZstdReadMask"):
             if not 0 <= py[k] <= 255:
                 raise _Unparsed(f"envelope.py: {k} = {py[k]} is not a byte")
@@ -384,7 +473,7 @@ def translate(repo, gen_dir):
     except Exception as e:  # noqa: BLE001
         problems.append(f"header.rs cannot be read/parsed: {e!r}")
     out = Path(gen_dir) / "Envelope.lean"
-    if problems and out.exists():
+    if [p for p in problems if not p.startswith("note: ")] and out.exists():
         return problems  # keep the last good file so the project builds; the problem fails the obligations
     py_ok = py is not None and set(py) == set(_FALLBACK_PY)
     text = _gen_text(py if py_ok else _FALLBACK_PY, rs or _FALLBACK_RS)
@@ -638,7 +727,32 @@ def build_ext(desc):
 def build_package(spec):
     from hugr.package import Package
 
-    return Package([build_module(s, n) for s, n in spec["mods"]], [build_ext(d) for d in spec["exts"]])
+    mods = [build_module(s, n) for s, n in spec["mods"]]
+    exts = [build_ext(d) for d in spec["exts"]]
+    if spec.get("link") is not None and mods and exts:
+        _use_bundled(mods[0], exts, spec["link"])
+    return Package(mods, exts)
+
+
+def _use_bundled(h, exts, seed):
+    """a function in module `h` whose nodes name operations and types of the extensions that travel in the same
+    package, the way a document written elsewhere does: as unresolved (Custom / Opaque) references whose recorded
+    description, signature and bound are the node's own and need not repeat the definition's"""
+    from hugr import ops, tys
+    from hugr.build.dfg import DfBase
+
+    rng = random.Random(seed)
+    fb = DfBase.new_nested(ops.FuncDefn("uses_bundled", [tys.Bool], []), h, h.root)
+    w = fb.inputs()[0]
+    for e in rng.sample(exts, min(len(exts), 2)):
+        for name in rng.sample(sorted(e.operations), min(len(e.operations), 2)):
+            t = tys.Bool
+            if e.types and rng.random() < 0.6:
+                td = e.types[rng.choice(sorted(e.types))]
+                t = tys.Opaque(id=td.name, bound=rng.choice([tys.TypeBound.Copyable, tys.TypeBound.Any]), args=[], extension=e.name)
+            op = ops.Custom(op_name=name, signature=tys.FunctionType([tys.Bool], [t]), description=rng.choice(["", "recorded here", e.operations[name].description]), extension=e.name, args=[])
+            fb.add_op(op, w)
+    fb.set_outputs(w)
 
 
 def _canon(x, key=None):
@@ -830,7 +944,10 @@ def _rand_pkg_spec(rng, cfgs=None):
         # and in the thorough tier)
         cfgs = ["default"] + [["JSON", z] for z in ZSTD_LEVELS] + [
             ["MODULE", rng.choice(ZSTD_LEVELS)], ["MODULE_WITH_EXTS", rng.choice(ZSTD_LEVELS)]]
-    return {"k": "pkg", "mods": mods, "exts": exts, "cfgs": cfgs}
+    spec = {"k": "pkg", "mods": mods, "exts": exts, "cfgs": cfgs}
+    if mods and exts and rng.random() < 0.5:
+        spec["link"] = rng.randrange(1 << 30)
+    return spec
 
 
 def corpus():
@@ -1238,6 +1355,8 @@ def stats(spec, obs, counters):
     elif k == "pkg":
         counters[f"pkg.modules={len(spec['mods'])}"] += 1
         counters[f"pkg.extensions={len(spec['exts'])}"] += 1
+        if spec.get("link") is not None:
+            counters["pkg.module-names-operations-of-a-bundled-extension"] += 1
         if obs.startswith("!"):
             counters["pkg.build-failed"] += 1
             return
